@@ -34,7 +34,7 @@ structure St where
   evsig : Slot One := ⟨{}, 0⟩
   evloop : Slot EvLoop := ⟨{}, 0⟩
   nctx : Nat := 0
-  sockh : Slot Two := ⟨{}, 0⟩
+  sockh : Slot SockH := ⟨{}, 0⟩
   evpipe : Slot Two := ⟨{}, 0⟩
   sock : Slot One := ⟨{}, 0⟩
   ffctl : Slot One := ⟨{}, 0⟩
@@ -328,16 +328,19 @@ def stepLine (s : St) (toks : List String) : St × String :=
     doInit { s with nctx := 0 } (evloopNew f a1 (decide (a2 ≠ 0)) a3 nodeSz h) (fun s x => { s with evloop := x }) evShow
   | "evloop.delete" =>
     if s.evloop.st ≠ 1 then (s, "bad-op") else
-    doVoid s 3 (evloopDelete s.evloop.obj h) (fun s x => { s with evloop := x }) evShow
+    doVoid { s with nctx := 0 } 3 (evloopDelete s.evloop.obj h) (fun s x => { s with evloop := x }) evShow
   | "evloop.add" =>
     if s.evloop.st ≠ 1 || s.nctx ≥ 64 then (s, "bad-op") else
     doCall { s with nctx := s.nctx + 1 } s.evloop (evloopAdd f s.evloop.obj h) (fun s x => { s with evloop := x }) evShow
   | "sockh.init" =>
     if !canInit s.sockh.st then (s, "bad-op") else
-    doInit s (sockhInit f h) (fun s x => { s with sockh := x }) Two.show
+    doInit s (sockhInit f h) (fun s x => { s with sockh := x }) SockH.show
   | "sockh.destroy" =>
     if !canDestroy s.sockh.st then (s, "bad-op") else
-    doVoid s 3 (sockhDestroy s.sockh.obj h) (fun s x => { s with sockh := x }) Two.show
+    doVoid s 3 (sockhDestroy s.sockh.obj h) (fun s x => { s with sockh := x }) SockH.show
+  | "sockh.addctx" =>
+    if s.sockh.st ≠ 1 || s.evloop.st ≠ 1 || s.nctx ≥ 64 then (s, "bad-op") else
+    doCall { s with nctx := s.nctx + 1 } s.sockh (sockhAddCtx f s.sockh.obj h) (fun s x => { s with sockh := x }) SockH.show
   | "evpipe.init" =>
     if !canInit s.evpipe.st then (s, "bad-op") else
     doInit s (evpipeInit f h) (fun s x => { s with evpipe := x }) Two.show
